@@ -168,6 +168,8 @@ def fn_source(n, twin=False, decorate=True):
             x = "wrapped2_%s(a)" % to
         else:
             x = "%s(a)" % to
+        if r.get("pass"):          # a memento function handed over as an argument value
+            x = x[:-1] + ", fnarg=%s)" % r["pass"]
         lines.append("    acc.append(%s)" % shaped(x, r.get("shape", "plain")))
     if n.get("fnarg"):
         lines.append("    if fnarg is not None:")
